@@ -364,3 +364,31 @@ Proof. exact C17_tunnel_encap_roundtrip. Qed.
 Check tunnel_encap_roundtrip :
   forall l, wf_te l -> te_listable l -> te_from_api (te_to_api l) = Some l.
 Print Assumptions tunnel_encap_roundtrip.
+
+(* (28) BGP-MUP NLRI (the four 3GPP-5G route types): listing a well-formed route and adding it again
+   gives the same route (address and prefix text, RD, TEID, QFI, endpoint length). *)
+Theorem mup_roundtrip :
+  forall (v6p : N -> list N) (v6r : list N -> option N) (n : mup),
+    v6_contract v6p v6r -> v6_nonempty v6p -> wf_mup n ->
+    mup_from_api v6r (mup_to_api v6p n) = Some n.
+Proof. exact C17_mup_roundtrip. Qed.
+Check mup_roundtrip :
+  forall (v6p : N -> list N) (v6r : list N -> option N) (n : mup),
+    v6_contract v6p v6r -> v6_nonempty v6p -> wf_mup n ->
+    mup_from_api v6r (mup_to_api v6p n) = Some n.
+Print Assumptions mup_roundtrip.
+
+(* (29) A MUP route accepted from the API is one the MUP decoder can produce (prefix length within
+   the address and no address octets beyond it, one-octet QFI, Type 2 endpoint length within
+   [width, width + 32] with no TEID bits beyond it) and its body fits the one-octet length of the
+   encoding. *)
+Theorem mup_from_api_preserves_wf :
+  forall (v6r : list N -> option N) (x : api_mup) (n : mup),
+    v6_range v6r -> api_mup_in_range x -> mup_from_api v6r x = Some n ->
+    wf_mup n /\ N.of_nat (length (mup_body n)) < 256.
+Proof. exact C17_mup_from_api_preserves_wf. Qed.
+Check mup_from_api_preserves_wf :
+  forall (v6r : list N -> option N) (x : api_mup) (n : mup),
+    v6_range v6r -> api_mup_in_range x -> mup_from_api v6r x = Some n ->
+    wf_mup n /\ N.of_nat (length (mup_body n)) < 256.
+Print Assumptions mup_from_api_preserves_wf.
